@@ -98,6 +98,9 @@ pub struct ModSpec {
     pub panic_at: u8,
     #[serde(default)]
     pub tasks: Vec<crate::asy::TaskSpec>,
+    /// scripted body operations applied to received data messages (see bodies::apply_ops)
+    #[serde(default)]
+    pub rx_ops: Vec<u8>,
 }
 
 #[derive(Serialize, Deserialize, Clone, Debug, PartialEq, Eq, Hash)]
@@ -259,13 +262,14 @@ impl ScriptMod {
         current().gate(name, *pos).map(|g| (g, gi))
     }
 
-    fn do_act(&mut self, site: usize, ai: usize, act: &Act) {
+    /// returns false when the script of this event stops here (twin of a panic)
+    fn do_act(&mut self, site: usize, ai: usize, act: &Act) -> bool {
         match act {
             Act::Send { gate, delay_ns, body } => {
-                let Some((g, gi)) = self.gate_ref(*gate) else { return };
+                let Some((g, gi)) = self.gate_ref(*gate) else { return true };
                 // sending on a transit gate is a usage error (panics in des); scripts never do it
                 if g.kind() == GateKind::Transit {
-                    return;
+                    return true;
                 }
                 let uid = uid_of(self.idx, site, ai, self.inc);
                 let msg = crate::bodies::make_message(uid, *body).src(uid_to_src(uid));
@@ -287,7 +291,7 @@ impl ScriptMod {
             Act::Shutdown { restart, at } => {
                 // scripts restart at most MAX_CYCLES times, otherwise a restarting script would never end
                 if self.inc >= MAX_CYCLES {
-                    return;
+                    return true;
                 }
                 rec(self.idx, Ev::ShutdownReq { restart: *restart });
                 if *restart < 0 {
@@ -299,6 +303,10 @@ impl ScriptMod {
                 }
             }
             Act::Panic => {
+                if is_twin() {
+                    go_silent(self.idx);
+                    return false;
+                }
                 rec(self.idx, Ev::PanicNow);
                 panic!("scripted panic in module {}", self.idx);
             }
@@ -331,6 +339,7 @@ impl ScriptMod {
                 schedule_in(Message::default().kind(SELF_KIND).src(uid_to_src(uid)), Duration::from_nanos(*delay_ns));
             }
         }
+        true
     }
 
     fn schedule_beat(&self, i: usize, rel_ns: u64) {
@@ -366,7 +375,7 @@ impl Module for ScriptMod {
         let base = self.prog.gstack.len();
         let mut own = ProcessingStack::default();
         for (i, p) in spec.pes.iter().enumerate() {
-            own.append(ScriptPe { m: self.idx, id: (base + i) as u16, spec: p.clone(), prog: self.prog.clone(), token: crate::bodies::Token::new_opt() });
+            own.append(ScriptPe { m: self.idx, id: (base + i) as u16, spec: p.clone(), prog: self.prog.clone(), token: crate::bodies::Token::pe() });
         }
         if spec.pes_prepend {
             own.append(stack);
@@ -383,9 +392,16 @@ impl Module for ScriptMod {
     }
 
     fn at_sim_start(&mut self, stage: usize) {
+        if is_silent(self.idx) {
+            return;
+        }
         rec(self.idx, Ev::Start { stage: stage as u8, inc: self.inc });
         let spec = self.spec().clone();
         if spec.panic_at as usize == stage {
+            if is_twin() {
+                go_silent(self.idx);
+                return;
+            }
             rec(self.idx, Ev::PanicNow);
             panic!("scripted panic in at_sim_start({stage}) of module {}", self.idx);
         }
@@ -404,6 +420,9 @@ impl Module for ScriptMod {
     }
 
     fn handle_message(&mut self, msg: Message) {
+        if is_silent(self.idx) {
+            return;
+        }
         let kind = msg.header().kind;
         if kind >= BEAT_KIND && kind < BEAT_KIND + 0x0800 {
             // beats of an older incarnation are not ours (they cannot arrive: the module was inactive), ignore defensively
@@ -419,7 +438,9 @@ impl Module for ScriptMod {
                 self.schedule_beat(i + 1, d);
             }
             for (ai, a) in spec.beats[i].acts.iter().enumerate() {
-                self.do_act(i, ai, a);
+                if !self.do_act(i, ai, a) {
+                    break;
+                }
             }
             return;
         }
@@ -444,22 +465,41 @@ impl Module for ScriptMod {
         .unwrap_or((-1, -1, -1));
         let receiver_ok = msg.header().receiver_module_id == current().id();
         rec(self.idx, Ev::Recv { uid, kind, inc: self.inc, sender_m, receiver_ok, last_m, last_g, len: msg.length() as u32 });
-        crate::bodies::on_receive(self.idx, uid, msg);
         if kind == SELF_KIND {
             return;
         }
         self.rx_count += 1;
         let spec = self.spec().clone();
+        // a scripted panic on this receive happens while the handler still holds the message
+        for r in &spec.rx {
+            if r.nth == self.rx_count && matches!(r.act, Act::Panic) {
+                let _held = msg;
+                if is_twin() {
+                    go_silent(self.idx);
+                    return;
+                }
+                rec(self.idx, Ev::PanicNow);
+                panic!("scripted panic in module {} while holding message {uid:#x}", self.idx);
+            }
+        }
+        crate::bodies::on_receive(self.idx, uid, msg);
         for (ri, r) in spec.rx.iter().enumerate() {
-            if r.nth == self.rx_count {
-                self.do_act(RX_SITE_BASE + ri, 0, &r.act);
+            if r.nth == self.rx_count && !self.do_act(RX_SITE_BASE + ri, 0, &r.act) {
+                break;
             }
         }
     }
 
     fn at_sim_end(&mut self) -> Result<(), RuntimeError> {
+        if is_silent(self.idx) {
+            return Ok(());
+        }
         rec(self.idx, Ev::End { inc: self.inc });
         if self.spec().panic_at == 200 {
+            if is_twin() {
+                go_silent(self.idx);
+                return Ok(());
+            }
             rec(self.idx, Ev::PanicNow);
             panic!("scripted panic in at_sim_end of module {}", self.idx);
         }
@@ -673,9 +713,31 @@ fn to_channel(c: &Chan) -> ChannelRef {
     })
 }
 
+#[derive(Default, Clone)]
 pub struct RunOpts {
-    /// stepping / inspection hook is not needed so far
     pub collect_gate_info: bool,
+    /// C13 twin run: a scripted panic is replaced by "stop here and ignore everything from now on"
+    pub twin: bool,
+}
+
+thread_local! {
+    static TWIN: RefCell<bool> = const { RefCell::new(false) };
+    static SILENT: RefCell<Vec<bool>> = const { RefCell::new(Vec::new()) };
+}
+fn is_twin() -> bool {
+    TWIN.with(|t| *t.borrow())
+}
+fn is_silent(m: usize) -> bool {
+    SILENT.with(|s| s.borrow().get(m).copied().unwrap_or(false))
+}
+fn go_silent(m: usize) {
+    SILENT.with(|s| {
+        let mut s = s.borrow_mut();
+        if m >= s.len() {
+            s.resize(m + 1, false);
+        }
+        s[m] = true;
+    });
 }
 
 /// Executes a (normalised) program on the real net layer. Never panics itself: escaping panics are reported.
@@ -689,6 +751,8 @@ pub fn run_net(prog: &NetProgram, opts: &RunOpts) -> NetResult {
         *c.borrow_mut() = Some(RunCtx { trace: Vec::new(), ids: BTreeMap::new(), building: 0, prog: prog.clone(), flat_gates: flat.clone(), ledger: crate::bodies::Ledger::default() });
     });
     PE_SENDS.with(|p| *p.borrow_mut() = 0);
+    TWIN.with(|t| *t.borrow_mut() = opts.twin);
+    SILENT.with(|s| s.borrow_mut().clear());
     crate::asy::reset_run();
 
     let outcome = std::panic::catch_unwind(std::panic::AssertUnwindSafe(|| {
@@ -699,7 +763,7 @@ pub fn run_net(prog: &NetProgram, opts: &RunOpts) -> NetResult {
             let m = with_ctx(|c| c.building).unwrap_or(0);
             let mut st = ProcessingStack::default();
             for (i, p) in gp.gstack.iter().enumerate() {
-                st.append(ScriptPe { m, id: i as u16, spec: p.clone(), prog: gp.clone(), token: crate::bodies::Token::new_opt() });
+                st.append(ScriptPe { m, id: i as u16, spec: p.clone(), prog: gp.clone(), token: crate::bodies::Token::pe() });
             }
             st
         };
